@@ -51,7 +51,8 @@ def strategy(shard):
         return {"vendor": shard["vendor"], "sizes": sizes, "extra": extra, "sample": sample, "n_cvrs": n_cvrs, "refuse": refuse,
                 "ncv": ncv, "nph": nph, "cvr_sample": cvr_sample,
                 # row labels of the manifest sheet (the batches are its rows, in row order, whatever their labels)
-                "index": draw(st.sampled_from(["range", "range", "gaps", "reversed", "repeated"]))}
+                "index": draw(st.sampled_from(["range", "range", "gaps", "reversed", "repeated"])),
+                "small_names": draw(st.sampled_from([False, False, True]))}
 
     return case()
 
@@ -64,7 +65,9 @@ def _manifest(case):
         rows = [{"Tray #": 1 + i % 3, "Tabulator Number": 10 + i // 2, "Batch Number": 100 + i, "Total Ballots": s,
                  "VBMCart.Cart number": 7 + i % 2} for i, s in enumerate(sizes)]
     else:
-        rows = [{"Container": f"box{i % 2}", "Tabulator": 10 + i // 2, "Batch Name": 100 + i, "Number of Ballots": s}
+        # batches are called 100, 101, ... or simply 1, 2, ... (the phantom batch that prep_manifest appends is called 1 too)
+        base = 1 if case.get("small_names") else 100
+        rows = [{"Container": f"box{i % 2}", "Tabulator": 10 + i // 2, "Batch Name": base + i, "Number of Ballots": s}
                 for i, s in enumerate(sizes)]
     df = pd.DataFrame(rows)
     ix = case.get("index", "range")
@@ -199,6 +202,24 @@ def evaluate(case, out):
             if not out.expect(cid in order2 and order2[cid].get("selection_order") == kk, "cvr-selection-order", lambda: (cid, order2.get(cid), kk)):
                 break
         out.expect(sorted(c[-1] for c in cards2) == sorted(cvrs[s].id for s in cs), "cvr-card-identifiers", lambda: [c[-1] for c in cards2])
+        # where to find each real card: the location fields are those of the card's own batch in the manifest
+        bycard = {c[-1]: c for c in cards2}
+        for s in cs:
+            cv = cvrs[s]
+            if cv.phantom or cv.id not in bycard:
+                continue
+            if dom:
+                tb, bt, _p = cv.id.split("-")
+                r = next(r for r in range(len(rows)) if rows[r] == (tb, bt))
+                want_loc = [str(man.iloc[r]["VBMCart.Cart number"]), str(man.iloc[r]["Tray #"]), tb, bt]
+                got_loc = [str(v) for v in bycard[cv.id][:4]]
+            else:
+                bt, _p = cv.id.split("_")
+                r = next(r for r in range(len(rows)) if rows[r][1] == bt and rows[r][0] != "phantom")
+                want_loc = [rows[r][0], bt]
+                got_loc = [str(v) for v in bycard[cv.id][:2]]
+            if not out.expect(got_loc == want_loc, "cvr-card-location", lambda: (cv.id, got_loc, want_loc)):
+                break
         wantp = sorted(cvrs[s].id for s in cs if cvrs[s].phantom)
         out.expect(sorted(m.id for m in mvr2) == wantp and all(m.phantom for m in mvr2), "cvr-phantom-mvrs", lambda: ([m.id for m in mvr2], wantp))
     feats = []
